@@ -3,7 +3,7 @@
    interpreter (C13/Model.v) of the tables REGENERATED from
    odl/discr/diff_ops.py:finite_diff into Gen/FiniteDiff.v. *)
 From Coq Require Import Reals Lia List Bool.
-From Verif Require Import Base.Num Base.Vec Base.VecR Lib.Axis Lib.AxisR C13.Syntax Gen.FiniteDiff C13.Model C13.ModelNd C13.Proofs C13.ProofsNd C13.ProofsLap.
+From Verif Require Import Base.Num Base.Vec Base.VecR Lib.Axis Lib.AxisR C13.Syntax Gen.FiniteDiff C13.Model C13.ModelNd C13.Proofs C13.ProofsNd C13.ProofsLap C13.ProofsAffine.
 Import ListNotations.
 Local Open Scope R_scope.
 
@@ -123,3 +123,28 @@ Theorem laplacian_selfadjoint_all_shapes :
   dot (laplacian shape p 0 dxs x) y = dot x (laplacian_adjoint shape p dxs y).
 Proof. exact laplacian_selfadjoint_nd. Qed.
 Print Assumptions laplacian_selfadjoint_all_shapes.
+
+(* T1: the textbook statement for arrays of every shape: the partial derivative
+   along any axis applies the textbook stencil (on the line extended by the
+   named rule, divided by dx) to every line along that axis. *)
+Theorem pderiv_textbook_all_shapes :
+  forall (shape : list nat) (ax : nat) (m : meth) (p : pmode) (c dx : R) (x : list R),
+  textbook_pair m p = true -> (ax < length shape)%nat -> (min_size p <= nth ax shape 0)%nat ->
+  length x = prodn shape ->
+  pderiv shape ax m p c dx x = along_axis shape ax (fd_ref m p c dx) x.
+Proof.
+  intros shape ax m p c dx x Hp Hax Hn Hx. unfold pderiv.
+  apply along_axis_ext; try assumption.
+  intros l Hl. apply fd_textbook_list; [assumption | rewrite Hl; assumption].
+Qed.
+Print Assumptions pderiv_textbook_all_shapes.
+
+(* T1: the constant-padding variant is affine in the array and its exact
+   difference quotient -- the derivative the code returns -- is the same scheme
+   with pad_const = 0, for every method, length and pad constant. *)
+Theorem fd_constant_padding_derivative :
+  forall (m : meth) (c dx : R) (f h : list R),
+  (2 <= length f)%nat -> length f = length h ->
+  fd m PConstant c dx (vadd f h) = vadd (fd m PConstant c dx f) (fd m PConstant 0 dx h).
+Proof. exact fd_const_affine. Qed.
+Print Assumptions fd_constant_padding_derivative.
